@@ -58,7 +58,7 @@ func shortStr(r *rng.R) string {
 // that are built here, outside the measured closure.
 var allocFreeNames = []string{"Str", "Strs", "Bytes", "Hex", "Bool", "Bools", "Int", "Ints", "Int8", "Ints8", "Int16", "Ints16", "Int32", "Ints32", "Int64", "Ints64",
 	"Uint", "Uints", "Uint8", "Uints8", "Uint16", "Uints16", "Uint32", "Uints32", "Uint64", "Uints64", "Float32", "Floats32", "Float64", "Floats64",
-	"Time", "Times", "Dur", "Durs", "TimeDiff", "Timestamp", "Err", "AnErr", "Dict", "Array", "Array+Dict", "Object", "RawJSON", "Type", "Func",
+	"Time", "Times", "Dur", "Durs", "TimeDiff", "Timestamp", "Err", "AnErr", "Dict", "Array", "Array+Dict", "Object", "RawJSON", "Type", "Type/value", "Func",
 	// the same methods with arguments that live in the CALLER's frame (slice literals, slices of local arrays, a
 	// short string conversion, a struct boxed for Type): a field method whose parameter starts to escape makes
 	// the caller allocate although the method itself does not (added after seeded change c07-agent3)
@@ -261,6 +261,18 @@ func mkStep(name string, r *rng.R) step {
 	case "Type":
 		var v interface{} = []interface{}{i64, s, o64{}, &t1, nil}[r.Intn(5)]
 		return step{name, 40, func(e *zerolog.Event) *zerolog.Event { return e.Type(k, v) }}
+	case "Type/value":
+		// the argument is a variable of a non-pointer type, boxed at the call
+		sv, st, fl, sl := s, o64{}, float64(i64)*1.5, []int{int(i64)}
+		switch r.Intn(4) {
+		case 0:
+			return step{name, 40, func(e *zerolog.Event) *zerolog.Event { return e.Type(k, sv) }}
+		case 1:
+			return step{name, 40, func(e *zerolog.Event) *zerolog.Event { return e.Type(k, st) }}
+		case 2:
+			return step{name, 40, func(e *zerolog.Event) *zerolog.Event { return e.Type(k, fl) }}
+		}
+		return step{name, 40, func(e *zerolog.Event) *zerolog.Event { return e.Type(k, sl) }}
 	case "Func":
 		return step{name, 30, func(e *zerolog.Event) *zerolog.Event { return e.Func(staticFunc) }}
 	case "Array/empty":
